@@ -451,11 +451,11 @@ Qed.
 
 (* ================================================================== (c) facts on the regenerated table *)
 Definition is_reserved (c : str) : bool := mem_str c reserved_words || mem_str c keywords.
-Definition avoids (c : str) : bool := implb (is_reserved c) (negb (str_eqb (python_identifier c [] false) c)).
+Definition avoids (c : str) : bool := if is_reserved c then negb (str_eqb (python_identifier c [] false) c) else true.
 
 Lemma gen_names_facts :
   gen_names_known = true /\ forallb (fun sn => avoids (snd sn)) template_names = true.
-Proof. split; vm_compute; reflexivity. Qed.
+Proof. split; [vm_compute; reflexivity | vm_cast_no_check (eq_refl true)]. Qed.
 
 (* every candidate that is a Python keyword or a word of utils.RESERVED_WORDS is never used verbatim as a python name *)
 Theorem python_identifier_avoids : forall scope c,
@@ -463,7 +463,7 @@ Theorem python_identifier_avoids : forall scope c,
 Proof.
   intros scope c Hin Hres Heq.
   destruct gen_names_facts as [_ H]. rewrite forallb_forall in H. specialize (H _ Hin). cbn [snd] in H.
-  unfold avoids in H. rewrite Hres in H. cbn [implb] in H. apply negb_true_iff in H.
+  unfold avoids in H. rewrite Hres in H. apply negb_true_iff in H.
   rewrite Heq, str_eqb_refl in H. discriminate.
 Qed.
 
